@@ -1264,8 +1264,12 @@ lys_set_implemented(struct lys_module *mod, const char **features)
 {
     LY_ERR ret = LY_SUCCESS;
     struct lys_glob_unres *unres = &mod->ctx->unres;
+    ly_bool *feat_backup = NULL;
 
     LY_CHECK_ARG_RET(NULL, mod, mod->parsed, LY_EINVAL);
+
+    /* remember the features, they are changed before anything can fail */
+    LY_CHECK_RET(lys_features_backup(mod->parsed, &feat_backup));
 
     /* implement */
     ret = _lys_set_implemented(mod, features, unres);
@@ -1284,9 +1288,11 @@ lys_set_implemented(struct lys_module *mod, const char **features)
 
 cleanup:
     if (ret) {
+        lys_features_restore(mod->parsed, feat_backup);
         lys_unres_glob_revert(mod->ctx, unres);
         lys_unres_glob_erase(unres);
     }
+    free(feat_backup);
     return ret;
 }
 
@@ -2100,6 +2106,7 @@ lys_parse(struct ly_ctx *ctx, struct ly_in *in, LYS_INFORMAT format, const char 
 {
     LY_ERR ret = LY_SUCCESS;
     struct lys_module *mod;
+    ly_bool *feat_backup = NULL;
 
     if (module) {
         *module = NULL;
@@ -2115,6 +2122,9 @@ lys_parse(struct ly_ctx *ctx, struct ly_in *in, LYS_INFORMAT format, const char 
     /* parse */
     ret = lys_parse_in(ctx, in, format, NULL, NULL, &ctx->unres.creating, &mod);
     LY_CHECK_GOTO(ret, cleanup);
+
+    /* remember the features, they are changed before anything can fail */
+    LY_CHECK_GOTO(ret = lys_features_backup(mod->parsed, &feat_backup), cleanup);
 
     /* implement */
     ret = _lys_set_implemented(mod, features, &ctx->unres);
@@ -2133,11 +2143,15 @@ lys_parse(struct ly_ctx *ctx, struct ly_in *in, LYS_INFORMAT format, const char 
 
 cleanup:
     if (ret) {
+        if (feat_backup) {
+            lys_features_restore(mod->parsed, feat_backup);
+        }
         lys_unres_glob_revert(ctx, &ctx->unres);
         lys_unres_glob_erase(&ctx->unres);
     } else if (module) {
         *module = mod;
     }
+    free(feat_backup);
     return ret;
 }
 
